@@ -245,7 +245,7 @@ func (ps *H265RawSTRefPicSet) decode(r *bits.Reader, st_rps_idx uint8, sps *H265
 	}
 
 	if ps.Inter_ref_pic_set_prediction_flag == 1 {
-		var ref_rps_idx, num_delta_pocs, num_ref_pics uint8
+		var ref_rps_idx, num_delta_pocs uint8
 		var ref *H265RawSTRefPicSet
 		var delta_rps, d_poc int
 		var ref_delta_poc_s0, ref_delta_poc_s1, delta_poc_s0, delta_poc_s1 [HEVC_MAX_REFS]int
@@ -266,7 +266,6 @@ func (ps *H265RawSTRefPicSet) decode(r *bits.Reader, st_rps_idx uint8, sps *H265
 		ps.Abs_delta_rps_minus1 = r.ReadUe16()
 		delta_rps = (1 - 2*int(ps.Delta_rps_sign)) * (int(ps.Abs_delta_rps_minus1) + 1)
 
-		num_ref_pics = 0
 		for j := 0; j <= int(num_delta_pocs); j++ {
 			ps.Used_by_curr_pic_flag[j] = r.ReadBit()
 			if ps.Used_by_curr_pic_flag[j] == 0 {
@@ -274,12 +273,6 @@ func (ps *H265RawSTRefPicSet) decode(r *bits.Reader, st_rps_idx uint8, sps *H265
 			} else {
 				ps.Use_delta_flag[j] = 1
 			}
-			if ps.Use_delta_flag[j] == 1 {
-				num_ref_pics++
-			}
-		}
-		if num_ref_pics >= HEVC_MAX_DPB_SIZE {
-			return errors.New("Invalid stream: short-term ref pic set %d contains too many pictures.\n")
 		}
 
 		// Since the stored form of an RPS here is actually the delta-step
@@ -384,6 +377,12 @@ func (ps *H265RawSTRefPicSet) decode(r *bits.Reader, st_rps_idx uint8, sps *H265
 			ps.Used_by_curr_pic_s1_flag[i] = used_by_curr_pic_s1[i]
 		}
 
+		// The limit applies to the pictures of the derived set (7.4.8:
+		// NumDeltaPocs <= sps_max_dec_pic_buffering_minus1 < MaxDpbSize), not to
+		// the number of use_delta_flags: an entry whose dPoc becomes 0 is dropped.
+		if int(ps.Num_negative_pics)+int(ps.Num_positive_pics) >= HEVC_MAX_DPB_SIZE {
+			return fmt.Errorf("Invalid stream: short-term ref pic set %d contains too many pictures.\n", st_rps_idx)
+		}
 	} else {
 		ps.Num_negative_pics = r.ReadUe8()
 		ps.Num_positive_pics = r.ReadUe8()
@@ -682,7 +681,9 @@ func (sps *H265RawSPS) Decode(data []byte) (err error) {
 	if sps.Num_short_term_ref_pic_sets > 0 {
 		sps.St_ref_pic_set = make([]H265RawSTRefPicSet, sps.Num_short_term_ref_pic_sets)
 		for i := uint8(0); i < sps.Num_short_term_ref_pic_sets; i++ {
-			sps.St_ref_pic_set[i].decode(r, i, sps)
+			if err = sps.St_ref_pic_set[i].decode(r, i, sps); err != nil {
+				return
+			}
 		}
 	}
 
